@@ -166,13 +166,14 @@ def scryptParams (n p : Int) (salt : Bytes) : List (Bytes × JVal) :=
   [(ascii "dklen", .num scryptDKLen), (ascii "n", .num n), (ascii "p", .num p),
    (ascii "r", .num scryptR), (ascii "salt", .str (hexEncode salt))]
 
-theorem getKDFKey_scryptParams (P : Prims) (c : Crypto) (auth salt : Bytes) (n p : Int)
+theorem getKDFKey_scryptParams (P : Prims) (c : Crypto) (auth salt : Bytes) (n p : Int) (hp0 : 0 < p)
     (hk : c.kdf = ascii "scrypt") (hp : c.kdfparams = scryptParams n p salt) :
     getKDFKey P c auth = kdfRes (P.kdf (.scrypt auth salt n scryptR p scryptDKLen)) := by
   unfold getKDFKey
   rw [hp, hk]
   simp only [scryptParams, lookup, k_salt_ne_dklen, k_n_ne_salt, k_p_ne_salt, k_r_ne_salt, k_dklen_ne_n, k_dklen_ne_r,
     k_dklen_ne_p, k_n_ne_r, k_n_ne_p, k_p_ne_r, if_false, if_true, asString, ensureInt, hexDecode_hexEncode]
+  rw [if_neg (by decide), if_neg (by simp only [scryptR]; omega)]
 
 /-! ### inversion of the decryption pipeline -/
 
@@ -244,13 +245,10 @@ theorem decryptBytes_ok {P : Prims} {f : KeyFile} {auth pt : Bytes} (h : decrypt
     rename_i hivl
     split at h
     · cases h
-    rename_i hctl
-    split at h
-    · cases h
     rename_i pt0 hup
     injection h with h
     subst h
-    exact ⟨buf, iv, ct, hcm, by simpa using hivl, Or.inr ⟨hv1, by simpa using hv1ok, by simpa using hctl, hup⟩⟩
+    exact ⟨buf, iv, ct, hcm, by omega, Or.inr ⟨hv1, by simpa using hv1ok, by omega, hup⟩⟩
   · rename_i hv1
     split at h
     · cases h
@@ -281,18 +279,70 @@ theorem decryptBytes_v3_of {P : Prims} {f : KeyFile} {auth buf iv ct : Bytes} (h
   simp only [hj, hv, hv3, decryptKeyV3, hver, hcip, hcm, hl]
   simp
 
+/-- the address comparison of DecryptKey (a73be14). -/
+def addrCheck (P : Prims) (f : KeyFile) (d : Nat) : Prop := f.address = [] ∨ fileAddr f.address = some (P.addrOf d)
+
 theorem decryptKey_ok {P : Prims} {f : KeyFile} {auth : Bytes} {k : Key} (h : decryptKey P f auth = .ok k) :
-    ∃ pt, decryptBytes P f auth = .ok pt ∧ k = ⟨scalarOfBytes pt, P.addrOf (scalarOfBytes pt)⟩ := by
+    ∃ pt, decryptBytes P f auth = .ok pt ∧ k = ⟨scalarOfBytes pt, P.addrOf (scalarOfBytes pt)⟩ ∧
+      addrCheck P f (scalarOfBytes pt) := by
   unfold decryptKey at h
   split at h
   · cases h
   · cases h
   rename_i pt hpt
+  simp only at h
+  split at h
+  · cases h
+  rename_i hc
   injection h with h
-  exact ⟨pt, hpt, h.symm⟩
+  refine ⟨pt, hpt, h.symm, ?_⟩
+  unfold addrCheck
+  by_cases h0 : f.address = []
+  · exact Or.inl h0
+  · right
+    by_cases h1 : fileAddr f.address = some (P.addrOf (scalarOfBytes pt))
+    · exact h1
+    · exact absurd ⟨h0, h1⟩ hc
 
-theorem decryptKey_of_bytes {P : Prims} {f : KeyFile} {auth pt : Bytes} (h : decryptBytes P f auth = .ok pt) :
+theorem decryptKey_of_bytes {P : Prims} {f : KeyFile} {auth pt : Bytes} (h : decryptBytes P f auth = .ok pt)
+    (hc : addrCheck P f (scalarOfBytes pt)) :
     decryptKey P f auth = .ok ⟨scalarOfBytes pt, P.addrOf (scalarOfBytes pt)⟩ := by
   unfold decryptKey; rw [h]
+  simp only
+  rw [if_neg]
+  intro ⟨h0, h1⟩
+  rcases hc with hc | hc
+  · exact h0 hc
+  · exact h1 hc
+
+theorem decryptKey_corrupted {P : Prims} {f : KeyFile} {auth pt : Bytes} (h : decryptBytes P f auth = .ok pt)
+    (h0 : f.address ≠ []) (h1 : fileAddr f.address ≠ some (P.addrOf (scalarOfBytes pt))) :
+    decryptKey P f auth = .err .corrupted := by
+  unfold decryptKey; rw [h]
+  simp only
+  rw [if_pos ⟨h0, h1⟩]
+
+/-- the hex text of an address carries no "0x"/"0X" prefix, so nothing is trimmed. -/
+theorem hexNib_ne_x (n : Nat) (h : n < 16) : hexNib n ≠ 120 ∧ hexNib n ≠ 88 := by
+  have : n = 0 ∨ n = 1 ∨ n = 2 ∨ n = 3 ∨ n = 4 ∨ n = 5 ∨ n = 6 ∨ n = 7 ∨ n = 8 ∨ n = 9 ∨ n = 10 ∨ n = 11 ∨
+      n = 12 ∨ n = 13 ∨ n = 14 ∨ n = 15 := by omega
+  rcases this with h | h | h | h | h | h | h | h | h | h | h | h | h | h | h | h <;> subst h <;> decide
+
+theorem fileAddr_hexEncode (b : Bytes) : fileAddr (hexEncode b) = some b := by
+  unfold fileAddr
+  have h0x : ascii "0x" = [48, 120] := by decide
+  have h0X : ascii "0X" = [48, 88] := by decide
+  have key : ∀ p : Bytes, (p = [48, 120] ∨ p = [48, 88]) → trimPrefix p (hexEncode b) = hexEncode b := by
+    intro p hp
+    unfold trimPrefix
+    cases b with
+    | nil => rcases hp with hp | hp <;> subst hp <;> simp [hexEncode]
+    | cons x r =>
+      have hx := x.toNat_lt
+      have h2 := hexNib_ne_x (x.toNat % 16) (by omega)
+      rcases hp with hp | hp <;> subst hp <;> simp [hexEncode, List.isPrefixOf]
+      · intro _ h120; exact absurd h120.symm h2.1
+      · intro _ h88; exact absurd h88.symm h2.2
+  rw [key _ (Or.inl h0x), key _ (Or.inr h0X), hexDecode_hexEncode]
 
 end Aqv.Keystore
